@@ -98,8 +98,9 @@ def run(prog, ctx):
     # fixed-size buffers never outgrown): decided by the structural rules of the packs below; a violation there means an
     # internal `expect`/assert can fire on valid use
     import importlib
-    INVARIANT_RULES = {"C02": ("C02.Q", "C02.Q2", "C02.A4", "C02.R"), "C04": ("C04.K", "C04.G", "C04.R"), "C07": ("C07.P",), "C18": ("C18.G", "C18.K"),
-                       "C16": ("C16.B",)}
+    INVARIANT_RULES = {"C02": ("C02.Q", "C02.Q2", "C02.A4", "C02.R", "C02.V", "C02.G"), "C03": ("C03.L", "C03.K", "C03.G"), "C04": ("C04.K", "C04.G", "C04.R"),
+                       "C05": ("C05.D", "C05.N", "C05.M"), "C06": ("C06.L", "C06.K", "C06.O", "C06.T"), "C07": ("C07.P", "C07.D"),
+                       "C18": ("C18.G", "C18.K"), "C16": ("C16.B",)}
     nI = 0
     for pack, rules in sorted(INVARIANT_RULES.items()):
         try:
@@ -115,7 +116,7 @@ def run(prog, ctx):
                 res.violate("C17.I", "C17.I|" + v.key, "internal invariant behind an expect/assert can break: " + v.message, getattr(v, "fn", None), getattr(v, "span", None))
         res.obligations += sum(1 for rid in rules)
         res.discharged += sum(1 for rid in rules if not any(v.rule == rid for v in r.violations))
-    res.rule("C17.I", nI, 20, "structural-invariant rule instances imported from C02/C04/C07/C16/C18")
+    res.rule("C17.I", nI, 20, "structural-invariant rule instances imported from C02-C07, C16, C18")
     res.extra["precondition_census"] = {"count": nP, "examples": census}
     res.extra["analysis"] = an.stats
     res.explanation = ("interval abstract interpretation of the whole crate (%d functions) with every parameter of the %d exported functions "
